@@ -47,6 +47,7 @@ type c20Key struct {
 }
 
 type c20Metric struct {
+	target int // if set, the event is sized so that len(Name)+len(Data)+60 == target
 	id   int64
 	spec format.MetricMetaValue // JSON-visible fields only, Name/NamespaceID included
 }
@@ -81,6 +82,7 @@ type c20Src struct {
 	dashes   []*c20Dash
 	nameEver map[string]map[int64]struct{} // metric name -> metric ids that ever held it
 	nextID   [5]int64
+	nEvents  int
 }
 
 type c20Saved struct {
@@ -122,6 +124,7 @@ type c20Hist struct {
 	rnd     *rand.Rand
 	index   int
 	fat     bool
+	huge    bool // events around the byte limit of one diff response; no Save (items above ChunkSize/2 are outside the storage contract)
 	files   bool
 	dir     string
 	src     *c20Src
@@ -156,7 +159,7 @@ func (h *c20Hist) witness(extra map[string]any) map[string]any {
 	if len(ops) > 400 {
 		ops = ops[len(ops)-400:]
 	}
-	w := map[string]any{"hist": h.index, "fat": h.fat, "files": h.files, "ops": ops}
+	w := map[string]any{"hist": h.index, "fat": h.fat, "huge": h.huge, "files": h.files, "ops": ops}
 	for k, v := range extra {
 		w[k] = v
 	}
@@ -219,6 +222,7 @@ func (h *c20Hist) emit(ev tlmetadata.Event) {
 		s.keys = append(s.keys, k)
 	}
 	s.hist[k] = append(s.hist[k], ev)
+	s.nEvents++
 	if ev.EventType == format.MetricEvent {
 		if s.nameEver[ev.Name] == nil {
 			s.nameEver[ev.Name] = map[int64]struct{}{}
@@ -229,15 +233,55 @@ func (h *c20Hist) emit(ev tlmetadata.Event) {
 }
 
 func (h *c20Hist) emitMetric(m *c20Metric) {
-	v := c20CloneSpec(&m.spec)
-	v.MetricID = int32(m.id)
-	v.NamespaceID = c20NsOfName(h.src, v.Name)
-	_ = v.RestoreCachedInfo()
-	ev, err := EventFromMetricMeta(v, "")
-	if err != nil {
-		panic(err)
+	build := func() tlmetadata.Event {
+		v := c20CloneSpec(&m.spec)
+		v.MetricID = int32(m.id)
+		v.NamespaceID = c20NsOfName(h.src, v.Name)
+		_ = v.RestoreCachedInfo()
+		ev, err := EventFromMetricMeta(v, "")
+		if err != nil {
+			panic(err)
+		}
+		return ev
+	}
+	ev := build()
+	if m.target != 0 { // size the event exactly: len(Name)+len(Data)+60 is what the diff function counts
+		pad := m.target - (len(ev.Name) + len(ev.Data) + 60)
+		if pad > 0 {
+			m.spec.Description += strings.Repeat("z", pad)
+		} else if -pad < len(m.spec.Description)-20 {
+			m.spec.Description = m.spec.Description[:len(m.spec.Description)+pad]
+		}
+		ev = build()
+		h.w.Count("src.events_sized_to_response_limit", 1)
+		h.w.Count(fmt.Sprintf("src.events_sized_to_response_limit.delta%+d", len(ev.Name)+len(ev.Data)+60-data_model.MaxJournalBytesSent), 1)
 	}
 	h.emit(ev)
+}
+
+// hugeMetric creates (or re-sizes) a metric whose event is just below, at or above the
+// byte limit of one diff response.
+func (h *c20Hist) hugeMetric() {
+	delta := []int{-1, 0, 1, -61, 2, 1000, -1000, 100_000}[h.rnd.IntN(8)]
+	var m *c20Metric
+	for _, x := range h.src.metrics {
+		if x.target != 0 && h.rnd.IntN(2) == 0 {
+			m = x
+		}
+	}
+	if m == nil {
+		n, ok := h.freeMetricName()
+		if !ok {
+			return
+		}
+		h.src.nextID[format.MetricEvent]++
+		m = &c20Metric{id: h.src.nextID[format.MetricEvent], spec: format.MetricMetaValue{Name: n, Description: "__whales_off "}}
+		h.src.metrics = append(h.src.metrics, m)
+	}
+	m.target = data_model.MaxJournalBytesSent + delta
+	h.logOp("huge metric %d %q sized to response limit %+d", m.id, m.spec.Name, delta)
+	h.abs.WriteString(fmt.Sprintf("H%+d;", delta))
+	h.emitMetric(m)
 }
 
 func (h *c20Hist) emitGroup(g *c20Group, sameTime bool) {
@@ -622,6 +666,19 @@ func (h *c20Hist) attach(rp *c20Replica) {
 		up.mu.RLock()
 		up.getJournalDiffLocked3Limits(lastVersion, &resp, h.maxItems, h.maxBytes)
 		up.mu.RUnlock()
+		// sync makes progress: a diff asked from a version behind the upstream is never empty
+		// (otherwise the replica would sit in long poll forever)
+		h.w.Count("sync.diffs_requested", 1)
+		up.mu.RLock()
+		upVersion := up.currentVersion
+		up.mu.RUnlock()
+		if lastVersion < upVersion {
+			h.w.Count("sync.diffs_requested_while_behind", 1)
+			if len(resp.Events) == 0 {
+				h.bad("sync/empty-diff-while-behind", fmt.Sprintf("replica %s asked for events after version %d with limits %d items / %d bytes, upstream is at version %d, the diff is empty", rp.name, lastVersion, h.maxItems, h.maxBytes, upVersion),
+					map[string]any{"replica": rp.name})
+			}
+		}
 		evs := c20Wire(resp.Events)
 		if h.cut < len(evs) {
 			evs = evs[:h.cut]
@@ -816,8 +873,8 @@ func (h *c20Hist) syncAll() bool {
 			if h.deliver(rp, math.MaxInt, data_model.MaxJournalItemsSent, data_model.MaxJournalBytesSent) {
 				break
 			}
-			if n > 100000 {
-				h.bad("delivery/no-progress", "replica "+rp.name+" did not finish within 100000 rounds", map[string]any{"replica": rp.name})
+			if n > h.src.nEvents+20 { // every round with production limits delivers at least one event
+				h.bad("sync/too-many-rounds", fmt.Sprintf("replica %s did not finish within %d diff rounds (source produced %d events)", rp.name, n, h.src.nEvents), map[string]any{"replica": rp.name})
 				return false
 			}
 		}
@@ -1376,6 +1433,10 @@ func (h *c20Hist) run() {
 	c, c2 := h.setup()
 
 	steps := 40 + rnd.IntN(90)
+	if h.huge {
+		steps = 25 + rnd.IntN(30)
+		h.hugeMetric()
+	}
 	if h.fat {
 		steps = 30 + rnd.IntN(30)
 		for i := 0; i < 3+rnd.IntN(4); i++ { // several >150 KiB metrics: saved journals span chunks
@@ -1417,6 +1478,12 @@ func (h *c20Hist) run() {
 			h.failNext = false
 			h.checkJournalIntegrity(rp)
 			h.checkGroupsOwnView(rp)
+		case x < 96 && h.huge:
+			if rnd.IntN(3) == 0 {
+				h.hugeMetric()
+			} else {
+				h.sourceOp()
+			}
 		case x < 90:
 			h.save(h.reps[rnd.IntN(len(h.reps))])
 		case x < 96:
@@ -1604,10 +1671,14 @@ func TestVerifC20(t *testing.T) {
 			h := &c20Hist{r: r, w: w, rnd: rnd, index: i}
 			h.fat = rnd.IntN(20) == 0
 			h.files = rnd.IntN(12) == 0
+			h.huge = !h.fat && !h.files && rnd.IntN(25) == 0
 			h.run()
 			w.Count("histories", 1)
 			if h.fat {
 				w.Count("histories.fat", 1)
+			}
+			if h.huge {
+				w.Count("histories.with_events_at_response_limit", 1)
 			}
 			if h.files {
 				w.Count("histories.file_backed", 1)
